@@ -1,19 +1,140 @@
-"""helpers shared by c01.py and c02.py: fast reading of TLC dumps with large numeric tables, exact tight-binding systems,
-the self-check of the Z[zeta12] library"""
+"""helpers shared by c01.py and c02.py: TLC runs with small heaps and per-process scratch names, fast reading of TLC dumps with
+large numeric tables, guarded calls of the library, exact tight-binding systems, the self-check of the Z[zeta12] library"""
+import json
+import os
 import re
+import shutil
 import time
 from collections import defaultdict
 from concurrent.futures import ThreadPoolExecutor
 
 import numpy as np
 
-from .. import tlc, ftable, tlaparse
-from ..common import MachineryError, quiet
+from .. import tlc, tlaparse
+from ..common import MachineryError, quiet, WORK
 from . import cyclo12 as cy
 
-TOL = 1e-9
+# relative tolerance of every comparison with exact values: regressions of C01 / C02 are O(1); the deviation observed on the
+# unchanged tree is <= 1e-13 (GUIDE rule 1: tolerance >= 10^4 x observed; here >= 10^5 x)
+TOL = 1e-8
+TLC_WORKERS = 4
+TLC_HEAP = "3g"
+REC_HEAP = "2g"
+MAX_PARALLEL_JVMS = 4
 
 
+def uniq(name):
+    """scratch / metadir name that is unique per property run (the names carry the property id) and per process"""
+    return f"{name}_p{os.getpid()}"
+
+
+def drop_scratch(st):
+    """remove the TLC metadir of a finished run (kept when TLC reported a violation: the replay file points into it)"""
+    if st and st.get("meta") and not st.get("violation"):
+        shutil.rmtree(st["meta"], ignore_errors=True)
+
+
+def run_tlc(module, cfg, name, workers=TLC_WORKERS, heap=TLC_HEAP, **kw):
+    return tlc.run_tlc(module, cfg, uniq(name), workers=workers, heap=heap, **kw)
+
+
+def enumerate_states(module, cfg, name, workers=TLC_WORKERS, timeout=3000, heap=TLC_HEAP):
+    """TLC with -dump (like ftable.enumerate_states, with a small heap, few workers and a per-process metadir)"""
+    st = tlc.run_tlc(module, cfg, uniq(name), workers=workers, dump=True, timeout=timeout, heap=heap)
+    if st.get("timeout"):
+        raise MachineryError(f"TLC timed out on {name}")
+    if st.get("error") and not st.get("violation"):
+        raise MachineryError(f"TLC error on {name}: {st['error'][:600]}")
+    return st
+
+
+REC_CFG = "SPECIFICATION RecSpec\nINVARIANT Report\nCHECK_DEADLOCK FALSE\n"
+
+
+def validate_records(module, records, name, timeout=3000, heap=REC_HEAP):
+    """like ftable.validate_records (one TLC state per record, failing clauses printed as <<"BAD", i, clause>>) with a small
+    heap and a per-process scratch directory -> (stats, {record index: [failing clauses]})"""
+    wd = os.path.join(WORK, "records", uniq(name))
+    os.makedirs(wd, exist_ok=True)
+    tf = os.path.join(wd, "recs.json")
+    with open(tf, "w") as f:
+        json.dump({"recs": records}, f)
+    try:
+        st = tlc.run_tlc(module, REC_CFG, uniq("rec_" + name), workers=1, coverage=False, env={"TRACE_FILE": tf}, timeout=timeout, heap=heap)
+        if st.get("error") or st.get("timeout") or st["distinct"] == 0:
+            raise MachineryError(f"record validation TLC run failed ({name}): {st.get('error') or st.get('output', '')[-800:]}")
+        if st["distinct"] != len(records):
+            raise MachineryError(f"record validation ({name}): {st['distinct']} states for {len(records)} records")
+        bad = {}
+        for i, cl in re.findall(r'^<<"BAD", (\d+), "([\w.:-]+)">>', st["output"], re.M):
+            bad.setdefault(int(i) - 1, []).append(cl)
+        drop_scratch(st)
+    finally:
+        shutil.rmtree(wd, ignore_errors=True)
+    return dict(distinct=st["distinct"], generated=st["generated"], wall_s=st["wall_s"], mode="record-validation"), bad
+
+
+def validate_parallel(module, recs, name, nchunks=MAX_PARALLEL_JVMS, timeout=3000):
+    """TLC validation of the records in at most MAX_PARALLEL_JVMS JVMs at once (the clauses recompute the exact values per record)"""
+    if not recs:
+        return dict(distinct=0, generated=0, wall_s=0.0, mode="record-validation"), {}
+    nchunks = max(1, min(nchunks, MAX_PARALLEL_JVMS))
+    size = max(1, -(-len(recs) // nchunks))
+    parts = [(k, recs[k:k + size]) for k in range(0, len(recs), size)]
+    t0 = time.time()
+    with ThreadPoolExecutor(max_workers=min(len(parts), MAX_PARALLEL_JVMS)) as ex:
+        res = list(ex.map(lambda p: validate_records(module, p[1], f"{name}_{p[0]}", timeout=timeout), parts))
+    tot = dict(distinct=0, generated=0, wall_s=round(time.time() - t0, 2), mode="record-validation")
+    bad = {}
+    for (k, _), (st, b) in zip(parts, res):
+        tot["distinct"] += st["distinct"]
+        tot["generated"] += st["generated"]
+        for i, cl in b.items():
+            bad[k + i] = cl
+    return tot, bad
+
+
+# ---------------------------------------------------------------- guarded use of the library
+def _short(ex):
+    return f"{type(ex).__name__}: {str(ex)[:300]}"
+
+
+def skipped_private(rep, what, ex):
+    """a private name / keyword of the library that the harness uses is gone: the sub-check is skipped, not a finding"""
+    d = rep.parts.setdefault("skipped_private", {})
+    d[what] = _short(ex) if isinstance(ex, BaseException) else str(ex)
+
+
+def guarded(rep, site, detail, fn):
+    """fn() -> (True, value).  An exception raised inside the wannierberri package on a valid input is a violation
+    `raises:<site>:<ExcType>` (any class, any text) -> (False, None); a TypeError / AttributeError raised in a harness frame (renamed
+    private attribute, changed keyword) skips the sub-check (recorded) -> (False, None); everything else propagates"""
+    try:
+        return True, fn()
+    except MachineryError:
+        raise
+    except Exception as ex:
+        from ..main import raised_by_code_under_test
+        where = raised_by_code_under_test(ex)
+        if where is not None:
+            rep.violation(f"raises:{site}:{type(ex).__name__}", dict(detail, error=_short(ex), raised_in=where))
+            return False, None
+        if isinstance(ex, (AttributeError, TypeError)):
+            skipped_private(rep, site, ex)
+            return False, None
+        raise
+
+
+def finish_on_error(rep):
+    """to be called from `except Exception:` in check(): violations collected so far are printed before the exception goes on"""
+    if rep.violations:
+        try:
+            rep.finish()
+        except Exception:
+            pass
+
+
+# ---------------------------------------------------------------- TLC dumps
 def _fast_value(text):
     """TLC value built from integers, booleans, strings, tuples, sets, records and functions -> Python (tuples, frozensets, dicts)
     through the Python parser (much faster than the character-level parser for large tables)"""
@@ -35,7 +156,6 @@ def _fast_value(text):
 
 def fast_dump_states(st, fast_vars=()):
     """like ftable.dump_states, but the variables named in fast_vars (numeric tables) are converted by the Python parser"""
-    import os
     p = st.get("dump_path")
     if not p or not os.path.exists(p):
         raise MachineryError(f"no state dump produced ({st.get('meta')})")
@@ -61,6 +181,14 @@ def fast_dump_states(st, fast_vars=()):
         yield s
 
 
+def sorted_states(st, fast_vars, keep, key):
+    """the states of the dump selected by keep(s), in an order that does not depend on the TLC workers (the dump order does)"""
+    states = [s for s in fast_dump_states(st, fast_vars=fast_vars) if keep(s)]
+    states.sort(key=lambda s: repr(key(s)))
+    return states
+
+
+# ---------------------------------------------------------------- exact models
 def build_system(nw, lat, D, tau, hops):
     """real System_R for the model of TBFourier.tla; hops: dicts R, a, b (1-based), v (4-tuple of Z[zeta12])"""
     import wannierberri as wb
@@ -92,11 +220,28 @@ def exact_rows_array(direct, n, nk, nw, D):
     return out
 
 
+def project_exact(A, bound, tol=1e-6):
+    """complex array that should consist of cyclotomic integers -> nested lists of 4-lists.
+    ValueError: an entry is not a cyclotomic integer (a finding about the values); MachineryError: it is one, but only with
+    coefficients beyond the bound the harness derived (the harness's bound was wrong, not the code)"""
+    try:
+        return cy.mat_from_complex(A, bound=bound, tol=tol)
+    except ValueError as e:
+        big = min(8 * bound, 60000)     # uniqueness of the representation needs 2 * bound < ~1.4e5 (sqrt 3 is badly approximable)
+        if big <= bound:
+            raise
+        try:
+            cy.mat_from_complex(A, bound=big, tol=tol)
+        except ValueError:
+            raise e
+        raise MachineryError(f"coefficient bound {bound} of the exact projection is too small")
+
+
 def cyclo_library_check(rep):
     """TLC checks the ring laws of Cyclo12.tla; products, conjugates and rotations are compared with complex arithmetic"""
     cfg = "SPECIFICATION Spec\n" + "".join(f"INVARIANT {i}\n" for i in
                                            "RotIsMul MulCommutes MulDistrib ConjMult NormReal ZetaOrder SumOk".split()) + "CHECK_DEADLOCK FALSE\n"
-    st = ftable.enumerate_states("MC_Cyclo12.tla", cfg, f"cyclo12_{rep.pid}", workers=4)
+    st = enumerate_states("MC_Cyclo12.tla", cfg, f"cyclo12_{rep.pid}", workers=2, heap="1g")
     if st.get("violation"):
         raise MachineryError(f"Cyclo12 library self-check failed: {st['violation']}")
     rep.add_tlc("cyclo12_library", st)
@@ -112,22 +257,4 @@ def cyclo_library_check(rep):
     if n != st["distinct"] or worst > 1e-12:
         raise MachineryError(f"Cyclo12 library binding failed: {n} states, deviation {worst}")
     rep.part("cyclo12_library", states=n, max_deviation_from_complex_arithmetic=worst)
-
-
-def validate_parallel(module, recs, name, nchunks, timeout=3000):
-    """TLC validation of the records in several JVMs at once (the clauses recompute the exact values per record)"""
-    if not recs:
-        return dict(distinct=0, generated=0, wall_s=0.0, mode="record-validation"), {}
-    size = max(1, -(-len(recs) // nchunks))
-    parts = [(k, recs[k:k + size]) for k in range(0, len(recs), size)]
-    t0 = time.time()
-    with ThreadPoolExecutor(max_workers=len(parts)) as ex:
-        res = list(ex.map(lambda p: ftable.validate_records(module, ftable.REC_CFG, p[1], f"{name}_{p[0]}", timeout=timeout), parts))
-    tot = dict(distinct=0, generated=0, wall_s=round(time.time() - t0, 2), mode="record-validation")
-    bad = {}
-    for (k, _), (st, b) in zip(parts, res):
-        tot["distinct"] += st["distinct"]
-        tot["generated"] += st["generated"]
-        for i, cl in b.items():
-            bad[k + i] = cl
-    return tot, bad
+    drop_scratch(st)
